@@ -30,8 +30,11 @@ struct HashingWriter<W: Write, H: Digest> {
 
 impl<W: Write, H: Digest> Write for HashingWriter<W, H> {
     fn write(&mut self, buf: &[u8]) -> io::Result<usize> {
-        self.hasher.update(buf);
-        self.inner.write(buf)
+        // Only hash the bytes the inner writer accepted, the
+        // caller offers the rest again after a short write
+        let amount = self.inner.write(buf)?;
+        self.hasher.update(&buf[..amount]);
+        Ok(amount)
     }
 
     fn flush(&mut self) -> io::Result<()> {
